@@ -78,6 +78,9 @@ def replay_concrete(pid, gname, params, env, timeout=300):
 def _worker(args):
     pid, gi, tier, seed = args
     t0 = time.time()
+    if os.environ.get('SYMX_STACK_EVERY'):      # debugging aid: dump the worker's Python stack periodically
+        import faulthandler
+        faulthandler.dump_traceback_later(int(os.environ['SYMX_STACK_EVERY']), repeat=True, file=sys.stderr)
     from . import loader
     loader.install()
     from . import sched, expr as X
@@ -95,8 +98,10 @@ def _worker(args):
         from . import encode as _enc
         _enc.DEFAULT_QV[0] = bool(g.get('quotient_vars', False))
         ex = sched.Explorer(g['harness'], g.get('params', {}), max_paths=g.get('max_paths', 400),
-                            branch_timeout_ms=g.get('branch_timeout_ms', 5000))
+                            branch_timeout_ms=g.get('branch_timeout_ms', 5000), remote_feasibility=g.get('remote_feasibility', False))
         paths = ex.explore()
+        if ex.client is not None:
+            ex.client.close()
         res['paths'] = len(paths)
         res['queries'] += ex.queries
         res['solver_s'] += ex.solver_time
